@@ -1,4 +1,5 @@
-(* C15 — pins (theorems in Proofs/C15Main.v to follow). *)
+(* C15 — both reader generations agree: pins and theorems relating the model of parser.py's PDB decoder (Model/Reader1.v,
+   columns generated from parser.py) to the model of parser_v2.py's (Model/PdbLine.v, columns generated from parser_v2.py). *)
 From Coq Require Import String Ascii ZArith QArith List Bool.
 From RV Require Import Base.Val Gen.Torsion Gen.Parser Gen.ParserV2.
 Import ListNotations.
@@ -15,3 +16,32 @@ Lemma C15_pin_same_columns :
                      | None => false end) pdb_cols_v1 = true.
 Proof. vm_compute. reflexivity. Qed.
 Print Assumptions C15_pin_same_columns.
+
+From RV Require Import Base.PyStr Model.Reader1 Model.PdbLine Proofs.C09Main Proofs.C15Main Proofs.C15Written.
+Local Close Scope Q_scope.
+
+(* on every line the residue-level reader decodes, the table-level reader reports the same chain, number, insertion
+   code, residue name, atom name, coordinates, occupancy and model (its text fields are the stripped ones) *)
+Theorem C15_line_agreement : forall m line a, decode_pdb_atom m line = Ok a -> agree a (parse_atom_line m line).
+Proof. exact readers_agree_on_line. Qed.
+Print Assumptions C15_line_agreement.
+
+(* and where the table-level reader finds every number on a line of at least 27 columns, the residue-level reader decodes it *)
+Theorem C15_line_converse : forall m line,
+    p_resseq (parse_atom_line m line) <> None -> p_x (parse_atom_line m line) <> None -> p_y (parse_atom_line m line) <> None ->
+    p_z (parse_atom_line m line) <> None -> p_occ (parse_atom_line m line) <> None -> 27 <= length line ->
+    exists a, decode_pdb_atom m line = Ok a.
+Proof. exact reader1_decodes_when_reader2_does. Qed.
+Print Assumptions C15_line_converse.
+
+(* whole files whose lines are regular (the record-type column and the line prefix agree) *)
+Theorem C15_file_agreement : forall lines m l, forallb regular lines = true -> decode_pdb m lines = Ok l ->
+    Forall2 agree l (parse_lines m lines).
+Proof. exact readers_agree_on_file. Qed.
+Print Assumptions C15_file_agreement.
+
+(* files written by write_pdb are regular, and both readers return the written atoms *)
+Theorem C15_written_files : forall l l1, (forall a, In a l -> row_ok a = true) ->
+    decode_pdb 1 (write_pdb l) = Ok l1 -> Forall2 agree l1 (map (fun a => expected (ar_model a) a) l).
+Proof. exact both_readers_on_written_file. Qed.
+Print Assumptions C15_written_files.
